@@ -123,7 +123,7 @@ def units(tier, seed):
         for b in range(nbf):
             out.append({"kind": "import", "sid": "table" if fam == "tables" else "list", "vocab": fam, "n": n, "block": b,
                         "nblocks": nbf, "name": f"import/family/{fam}<={n}#{b}/{nbf}"})
-    for cid in ("ctx_bq", "ctx_li", "ctx_bq_any", "ctx_alt", "ctx_grp"):
+    for cid in ("ctx_bq", "ctx_li", "ctx_bq_any", "ctx_alt", "ctx_grp", "ctx_gp"):
         out.append({"kind": "context", "sid": cid, "n": 5 if q else 6, "name": f"context/{cid}"})
     exp = [
         {"sid": "basic", "family": "blocks", "size": 6 if q else 7},
@@ -234,10 +234,11 @@ def context_family(n):
                 if kids:
                     res.append(("bq", kids))
         if k >= 3:
-            # ul with one li whose first child is a p
+            # ul / ol with one li whose first child is a p
             for kids in forests(k - 2, False):
                 if kids and kids[0] == ("p",):
                     res.append(("ul", kids))
+                    res.append(("ol", kids))
         return tuple(res)
 
     for k in range(1, n + 1):
@@ -255,8 +256,10 @@ def context_family(n):
                         s.append(f"<p>{txt}</p>")
                     elif t[0] == "bq":
                         s.append("<blockquote>" + rend(t[1], [*anc, "blockquote"]) + "</blockquote>")
-                    else:
+                    elif t[0] == "ul":
                         s.append("<ul><li>" + rend(t[1], [*anc, "bullet_list", "list_item"]) + "</li></ul>")
+                    else:
+                        s.append("<ol><li>" + rend(t[1], [*anc, "ordered_list", "list_item"]) + "</li></ol>")
                 return "".join(s)
 
             html = rend(f, ["doc"])
@@ -350,7 +353,7 @@ def export_scope(model, family, sid, size):
     elif family == "html_special":
         s = {
             "types": ["doc", "paragraph", "code_block", "heading", "text"],
-            "texts": ["<", "&", "\"'", ">", "a", "&amp;"],
+            "texts": ["<", "&", "\"'", ">", "a", "&amp;", "a\u00a0", "\u2003"],
             "attrs": {"heading": [{"level": 6}]},
             "max_children": 2,
         }
